@@ -255,6 +255,7 @@ def run(F, rep, tier):
     temporal_order_rule(F, rep)
     # ---------------- R09.7
     collection_equality_rule(F, rep)
+    context_key_rule(F, rep)
     # ---------------- R09.8
     number_order_rule(F, rep)
     # ---------------- R09.9
@@ -609,6 +610,59 @@ def collection_equality_rule(F, rep):
     for k in ("List", "Context"):
         if k not in seen:
             rep.violation(rid, "size-test:%s" % k, "no path answering Some(true) for two %ss was found in eval_ternary_equality (shape not recognised)" % k.lower(), "%s:%s" % (h["file"], h["line"]))
+
+
+def context_key_rule(F, rep):
+    """R09.10: two contexts are equal when they have the same keys with equal values: the value taken from the right operand must be the one stored under the
+    left entry's *key* (a lookup with that key, or a walk of both entry lists that also compares the keys). Pairing the values by position only makes
+    {a:1,b:2} = {a:1,c:2} true."""
+    from facts import find_hir, strip
+    from props import c10
+    rid = rep.rule("R09.10", "equality of two contexts relates the entries by key: the right operand's value is looked up with the left entry's key (or the keys of a pairwise walk are compared)")
+    name = B + "eval_ternary_equality"
+    hs = [F.hir.get(name)] + [h for n, h in F.hir.items() if n.startswith(B) and n != name and "{closure" not in n and
+                              find_hir(h["body"], lambda x: x.get("k") == "Call" and x.get("callee") == name) and "context" in n.split("::")[-1].lower()]
+    if hs[0] is None:
+        rep.missing_anchor(rid, name)
+        return
+    found = 0
+    seen_loops = set()
+    for h in hs:
+        al = c10.aliases_of(h)
+        for m, _ in find_hir(h["body"], lambda x: x.get("k") in ("Match", "If")):
+            for pat, body, scrut in c10.pattern_sites(m):
+                if not body or c10.payload_binding(pat, "dmntk_feel::values::Value::Context") is None:
+                    continue
+                inner = [pb for x, _ in find_hir(body, lambda x: x.get("k") in ("Match", "If")) for pb in c10.pattern_sites(x) if pb[1] and c10.payload_binding(pb[0], "dmntk_feel::values::Value::Context")]
+                for ipat, ibody, _ in inner:
+                    loops = [lp for lp, _ in find_hir(ibody, lambda x: x.get("k") == "Match" and x.get("src") == "ForLoopDesugar") if
+                             find_hir(lp, lambda y: y.get("k") == "Call" and y.get("callee") == name)]
+                    chains = [mc for mc, _ in find_hir(ibody, lambda x: x.get("k") == "MethodCall" and x.get("method") in ("all", "try_fold", "map", "find_map", "any")) if
+                              any(find_hir(F.hir.get(c.get("name"), {"body": {}})["body"], lambda y: y.get("k") == "Call" and y.get("callee") == name)
+                                  for c, _ in find_hir(mc.get("args", []), lambda y: y.get("k") == "Closure"))]
+                    for lp in loops + chains:
+                        if id(lp) in seen_loops:
+                            continue
+                        seen_loops.add(id(lp))
+                        found += 1
+                        key = "by-key:%s:%d" % (h["name"].split("::")[-1] if "name" in h else "eval_ternary_equality", found)
+                        region = [lp] + [F.hir[c.get("name")]["body"] for c, _ in find_hir(lp, lambda y: y.get("k") == "Closure") if c.get("name") in F.hir]
+                        lookups = [x for r_ in region for x, _ in find_hir(r_, lambda x: x.get("k") == "MethodCall" and x.get("method") in ("get_entry", "get", "contains_key", "get_key_value", "remove", "contains_entry"))]
+                        keycmp = [x for r_ in region for x, _ in find_hir(r_, lambda x: (x.get("k") == "Binary" and x.get("op") in ("==", "!=") and "key" in (str(strip(x["a"]).get("name", "")) + str(strip(x["b"]).get("name", ""))).lower())
+                                                                           or (x.get("k") == "MethodCall" and x.get("method") in ("eq", "ne", "cmp") and "Name" in str(x.get("callee", ""))))]
+                        it = strip(lp["e"]) if lp.get("src") == "ForLoopDesugar" else lp
+                        it = strip(it["args"][0]) if it.get("k") == "Call" and it.get("args") else it
+                        names, root = c10.chain_of(it, al)
+                        positional = "zip" in names
+                        if lookups or keycmp:
+                            rep.ok(rid, key, "entries related by %s" % ("a lookup with the left key" if lookups else "a comparison of the keys"))
+                        elif positional:
+                            rep.violation(rid, key, "eval_ternary_equality compares the values of two contexts pairwise by position (zip) and never looks at the keys: contexts with different "
+                                          "keys and equal values compare equal", "%s:%s" % (h["file"], lp.get("l", h["line"])))
+                        else:
+                            rep.undecided(rid, key, "no lookup by key and no key comparison recognised in the entry loop of the context arm")
+    if not found:
+        rep.undecided(rid, "by-key", "no entry loop found in the Context / Context arm of eval_ternary_equality")
 
 
 def number_order_rule(F, rep):
